@@ -32,7 +32,7 @@ out.append("Every change below was applied to a scratch copy of the repository o
            "`sensitivity_results.json` by `tools/sens_report.py`.\n")
 out.append("### 11.1 Independently written changes (`seeded/<id>/`)\n")
 out.append("Written by sub-agents that were given only the property text and a scratch worktree (rounds 2-4 also a list of "
-           "ideas already used, so that they would not repeat them; round 6 ran after the oracles had been reviewed and relaxed); each was confirmed before being kept (patch applies to "
+           "ideas already used, so that they would not repeat them; round 6 ran after the oracles had been reviewed and relaxed; round 12, the last one, again with nothing but the property text); each was confirmed before being kept (patch applies to "
            "HEAD, 433/433 tests pass with it, its demonstration fails with it and passes without it: "
            "`seeded/<id>/confirm.log`). Changes marked *adversarial* (four in round 4, all of round 7) were written by authors who were "
            "additionally told in prose what the check drives and observes (no file from `/verif`) and asked for a change likely "
@@ -67,8 +67,9 @@ for k in sorted(data, key=lambda x: (x.split("-")[0], x)):
 planted = [d for d in data.values() if d.get("kind") == "planted"]
 seeded = [d for d in data.values() if d.get("kind") == "seeded" and not d.get("withdrawn")]
 out.append("")
-out.append("Planted: %d of %d caught. Seeded: %d of %d caught (three further seeded changes are not counted: one does not violate its property as worded, one needs a thread interleaving that its property does not quantify over, one was neutralised by a later repair of the library).\n" % (
-    sum(1 for d in planted if d["exit"] == 1), len(planted), sum(1 for d in seeded if d["exit"] == 1), len(seeded)))
+withdrawn = [d for d in data.values() if d.get("kind") == "seeded" and d.get("withdrawn")]
+out.append("Planted: %d of %d caught. Seeded: %d of %d caught (%d further seeded changes are not counted - two do not violate their property as worded (stability of `tree::sort`; what a moved-from list holds after a move assignment implemented as a swap), one needs a thread interleaving that its property does not quantify over, one was neutralised by a later repair of the library; the reason is in each row's result column).\n" % (
+    sum(1 for d in planted if d["exit"] == 1), len(planted), sum(1 for d in seeded if d["exit"] == 1), len(seeded), len(withdrawn)))
 # negative controls
 cpath = os.path.join(VERIF, "controls_results.json")
 if os.path.exists(cpath):
